@@ -532,6 +532,20 @@ def streams(ctx):
     four_builds("layout", items, "exhaustive", exhaustive=True,
                 note="comment-/blank-line-heavy texts; all sequences of <=%d pieces from a %d-piece alphabet with soft keywords" % (L, len(PIECES)))
 
+    # 3a. every public way into the parser, not only `parse`: the typed `Parse` impls of parser.rs (Suite, Stmt, Expr,
+    #     Identifier, Constant, the three Mod types, two typed statement/expression nodes) and parse_tokens over the lexer's
+    #     own stream, on token-less / comment-only / blank-line texts (where the full lexer emits trivia tokens and the default
+    #     lexer emits nothing) and on short statements surrounded by trivia
+    tokenless = ["", " ", "\t", "\x0c", "\n", "\r\n", "\n\n", "# c", "# c\n", "  # c\n", "\n    # x\n", "# a\n# b\n", "\n# c\n\n",
+                 "\\\n", " \\\n \n", "\ufeff", "\ufeff# c\n"]
+    short = ["x", "x\n", "x # c", "x # c\n", "# c\nx\n", "\n\nx\n", "x\n# c\n", "x\n\n# c\n\n", "x = 1", "x = 1 # c\n", "# c\nx = 1\n# d\n",
+             "pass", "pass # c\n", "# c\npass", "x = 1\ny = 2\n", "x = 1\n# c\ny = 2\n", "x;y", "1", "1 # c", "'a'", "'a' # c\n 'b'", "(a, # c\n b)",
+             "(\n# c\n1\n)", "if a:\n  # c\n  b\n", "if a: # c\n  b\n# d\n", "def f(): pass # c\n", "match x:\n  # c\n  case _: pass\n",
+             "type X = int # c\n", "# c\ntype X = int\n", "1 +", "x = # c\n", "(", "# c\n)", "x y", "  x", "\n  x\n", "x\n  y\n"]
+    ep = [(m, t) for t in tokenless + short + LAYOUT_CORPUS[::2] for m in ("S", "s", "x", "n", "c", "M", "I", "E", "a", "p", "N", "tm", "ti", "te")]
+    four_builds("entry-points", ep, "directed",
+                note="%d texts (token-less, comment-only, short statements with trivia) x 14 entry points: typed Parse impls and parse_tokens(lex)" % (len(ep) // 14))
+
     # 3b. every directed shape of tools/shapes.py (parameter-list sections, with-items of every expression kind, rare
     #     productions): the four builds must agree on grammar regions random generation seldom reaches
     import shapes
